@@ -1,6 +1,6 @@
 (* Extraction of the executable model and specification to OCaml.  Only ExtrOcamlBasic's directives
    are in effect; nat, positive, N, Z stay the extracted Coq datatypes. *)
-From WV Require Import Abs FenSpec Table Eval SanSpec Search Uci Book.
+From WV Require Import Abs FenSpec Table Eval SanSpec Search Uci Book GameValue.
 Require Extraction.
 Require ExtrOcamlBasic.
 Extraction Language OCaml.
@@ -23,6 +23,7 @@ Separate Extraction
   Rules.legal_moves Rules.apply Rules.perft Rules.king_attacked Rules.attacked Rules.legal_pos
   Rules.checkmate Rules.stalemate Rules.attacks_from Rules.pseudo_legal Rules.legal
   Abs.abs Abs.absm FenSpec.write
+  GameValue.win GameValue.loss GameValue.keeps
   Book.game_entries Book.build Book.lookup Book.clean_tokens
   Uci.step Uci.run Uci.collect Uci.fresh Uci.tokens
   Search.analyze_iterative Search.analyze Search.quiesce Search.iter_moves
